@@ -223,6 +223,40 @@ func bigPart(w *vc.Writer, r *vc.Rand) {
 			w.Case(vc.L{d, a}, vc.L{delivered, st}, true)
 		}
 	}
+	manyFrames(w)
+}
+
+// several frames in one request body, each within the per-message limit, the body as a whole beyond it: the limit is
+// per message. input ( declared actual count ) ; delivered = the frame size if exactly count messages of that size
+// arrived, otherwise the number of bytes that did
+func manyFrames(w *vc.Writer) {
+	for _, c := range [][2]int64{{1 << 21, 3}, {1<<20 + 6, 5}, {1 << 22, 2}, {1 << 16, 70}} {
+		d, k := c[0], int(c[1])
+		conn := vfake.NewConn()
+		conn.Script = []vfake.RespItem{{Kind: vfake.KEOF, NeedHalfClose: true}}
+		var rs []io.Reader
+		for i := 0; i < k; i++ {
+			h := []byte{0, 0, 0, 0, 0}
+			binary.BigEndian.PutUint32(h[1:], uint32(d))
+			rs = append(rs, &repReader{head: h, n: d})
+		}
+		rec := serveWeb(conn, io.NopCloser(io.MultiReader(rs...)))
+		st := trailerStatus(rec.Body.Bytes())
+		delivered, total := d, int64(0)
+		for _, b := range conn.SentBytes {
+			total += int64(len(b))
+			if int64(len(b)) != d {
+				delivered = -2
+			}
+		}
+		if len(conn.SentBytes) != k || delivered != d {
+			delivered = total
+			if total == d {
+				delivered = -2 // (one frame of several arrived: not to be mistaken for "delivered whole")
+			}
+		}
+		w.Case(vc.L{d, d, k}, vc.L{delivered, st}, true)
+	}
 }
 
 func bigWsPart(w *vc.Writer, r *vc.Rand) {
